@@ -25,6 +25,10 @@ mod performance;
 mod score_state;
 mod strains;
 
+#[cfg(rosu_pp_verif)]
+#[doc(hidden)]
+pub mod verif;
+
 const PLAYFIELD_WIDTH: f32 = 512.0;
 
 /// Marker type for [`GameMode::Catch`].
